@@ -29,10 +29,20 @@ Fixpoint digits_us (s : string) (acc : Z) (prev_digit : bool) : option Z :=
       else None
   end.
 
+(* number of digit characters (CPython 3.12 refuses to convert a string with more than
+   sys.get_int_max_str_digits() = 4300 of them: ValueError) *)
+Fixpoint count_digits (s : string) (acc : Z) : Z :=
+  match s with
+  | EmptyString => acc
+  | String c r => count_digits r (if is_digit c then acc + 1 else acc)
+  end.
+Definition max_str_digits : Z := 4300.
+
 (* int(str): None = ValueError.  Non-ASCII strings are outside the model (Ood). *)
 Definition int_of_str (s : string) : res (option Z) :=
   if negb (is_ascii_str s) then Ood else
   let t := strip s in
+  if (max_str_digits <? count_digits t 0)%Z then Ok None else
   match t with
   | String "-"%char r => Ok (option_map Z.opp (digits_us r 0 false))
   | String "+"%char r => Ok (digits_us r 0 false)
